@@ -131,7 +131,8 @@ def obligations(tier):
     if quick:
         sel_cases = [({'n': 3, 'partner': p}, f'n3.p{p}') for p in (0, 2)]
     else:
-        sel_cases = [({'n': 4, 'partner': p, 'c0': c0}, f'n4.p{p}.c{c0}') for p in (0, 2) for c0 in range(14)]
+        sel_cases = [({'n': 3, 'partner': p}, f'n3.p{p}') for p in (1, 2, 3)] + \
+                    [({'n': 4, 'partner': 0, 'c0': c0}, f'n4.p0.c{c0}') for c0 in range(14)]
     for bind, name in sel_cases:
         obs.append(Ob(f'C14.scope.laws.sel.{name}', 'harness.C14', 'scope_total_sel', bind=bind, timeout=t, functions=F_SCOPE,
                       twin=quick,
